@@ -52,7 +52,8 @@ pub fn replay(args: &Args) {
     let cases = read_ndjson(args.req("in"));
     let mut rep = Report::new(args.get("prop").unwrap_or("C06"), args.req("out"));
     let want_len = args.num("len", 0) as usize;
-    for v in &cases {
+    for v in cases {
+        let v = &v;
         match get_str(v, "op") {
             "roll1" => {
                 let b = Beh::parse(v);
@@ -173,7 +174,8 @@ pub fn history(args: &Args) {
     let mag = args.num("mag", 1000) as i64;
     let mut rng = Rng::new(args.num("seed", 1));
     const EXACT: &[&str] = &["min", "max", "argmin", "argmax", "rank", "rank_rev", "rank_pct", "rank_rev_pct"];
-    for v in &cases {
+    for v in cases {
+        let v = &v;
         if get_str(v, "op") != "roll1" {
             continue;
         }
